@@ -11,3 +11,8 @@ def claim(pid, text, note, ref, tech=None):
 claim('C12',
   'bounded model checking: tmDateIsValid/tmDateIsValid2 decided against a calendar model for ALL inputs at full width; other validators: see evidence not_decided',
   'trusted: CBMC C semantics, the Gregorian calendar model in harness/C12/tm_date.c', 'DESIGN.md 3/C12')
+
+claim('C20',
+  'bounded/inductive model checking of the real transition function: LLVM IR of the unmodified btok_pwd.c encoded to SMT-LIB (own loop-free encoder), one-step rules proved from every state of an inductive invariant (histories of any length) plus k-step monitors; z3 decides, cvc5 must agree; encoder validated against the gcc-built function by a solver query on every run',
+  'trusted: clang-14 -O1 lowering + tools/ir2smt.py (validated per run against gcc build on all 256x16 inputs), z3/cvc5, the rule formalisation in props/C20.py (lenient reading: PUK-authenticated sessions may deactivate/activate)', 'DESIGN.md 3/C20',
+  'LLVM-IR to SMT-LIB encoding of btokPwdTransition; inductive one-step + bounded k-step queries decided by z3 and cvc5')
